@@ -64,14 +64,21 @@ type delivery struct {
 	mode  enum.EOFMode
 	chunk int
 	buf   bool
+	tail  bool // buf: the buffer also holds the sentinel after the encoding (length-sweep family)
 }
 
 func (d delivery) String() string {
+	if d.buf && d.tail {
+		return "reader=bytes.Buffer+more-follows"
+	}
 	if d.buf {
 		return "reader=bytes.Buffer"
 	}
 	if d.chunk == 1 {
 		return d.mode.String() + "/1-byte-reads"
+	}
+	if d.chunk > 1 {
+		return fmt.Sprintf("%s/%d-byte-reads", d.mode, d.chunk)
 	}
 	return d.mode.String() + "/unfragmented"
 }
@@ -87,6 +94,10 @@ type source struct {
 }
 
 func (d delivery) open(b []byte) source {
+	if d.buf && d.tail {
+		bb := bytes.NewBuffer(append(append([]byte(nil), b...), enum.Sentinel...))
+		return source{bb, func() int { return len(b) + len(enum.Sentinel) - bb.Len() }}
+	}
 	if d.buf {
 		bb := bytes.NewBuffer(append([]byte(nil), b...))
 		return source{bb, func() int { return len(b) - bb.Len() }}
@@ -169,7 +180,20 @@ func encodeClause(d *refmodel.Datum) (string, string) {
 		// enumerated, the multisets of entries are compared
 		return "", ""
 	}
-	return "bytes-differ", fmt.Sprintf("Encode(%s) wrote %d bytes %s, documented serialization is %d bytes %s", rt, len(got), hexs(got), len(first), hexs(first))
+	return "bytes-differ", fmt.Sprintf("Encode(%s) wrote %d bytes %s, documented serialization is %d bytes %s%s", rt, len(got), hexs(got), len(first), hexs(first), firstDiff(got, first))
+}
+
+// firstDiff says where two long byte strings part (nothing for short ones,
+// which are printed in full).
+func firstDiff(got, want []byte) string {
+	if len(got) <= 96 && len(want) <= 96 {
+		return ""
+	}
+	i := 0
+	for i < len(got) && i < len(want) && got[i] == want[i] {
+		i++
+	}
+	return fmt.Sprintf(" (first difference at offset %d)", i)
 }
 
 func consumed(rd source, n int) (string, string) {
@@ -207,7 +231,7 @@ func readerClause(d *refmodel.Datum, dl delivery) (string, string) {
 		return c, det
 	}
 	if !bytes.Equal(out, b) {
-		return "bytes-differ", fmt.Sprintf("Reader().Read returned %d bytes %s for the %d bytes %s", len(out), hexs(out), len(b), hexs(b))
+		return "bytes-differ", fmt.Sprintf("Reader().Read returned %d bytes %s for the %d bytes %s%s", len(out), hexs(out), len(b), hexs(b), firstDiff(out, b))
 	}
 	return "", ""
 }
@@ -304,7 +328,7 @@ func report(d *refmodel.Datum, ep entryPoint, dl delivery, clause string) {
 }
 
 func main() {
-	run = enum.NewRun("C03", 40*time.Second, 9*time.Minute)
+	run = enum.NewRun("C03", 75*time.Second, 12*time.Minute)
 	depth := 2
 	if run.Thorough() {
 		depth = 3
@@ -318,7 +342,7 @@ func main() {
 	}
 	var nvals, nboundary, typeMismatch, typeChecked int64
 	var boundaryData []string
-	var zeroWidth map[string]interface{}
+	var zeroWidth, lengthSweep map[string]interface{}
 	var mu sync.Mutex
 	var mismatches []string
 
@@ -331,7 +355,12 @@ func main() {
 			"plus the zero-width family (families zero-width/<entry point>): element types Z = {(), ()<S>, v} and the tuples and structs of width 1 and 2 over them (27 types, every one serialized to nothing); containers [z] for every z of Z with 0..8 elements, {kv} for k, v in {(), ()<S>, v} and {(v)(v)} with 0 and 1 entry; " +
 			"every container c alone and at the positions (c), (c)<S,a>, (cC), (cw), (cCw), (ci) [1..4 bytes follow], (c()), (ic), [c] with two elements, {ic} with one entry, m<c>, through the 3 entry points under all 3 deliveries " +
 			"(coverage.zero_width gives the counts, among them the data whose container has more entries than bytes after it); " +
-			"evaluations counts (datum, entry point, delivery) executions. A case class is (signature shape with struct names dropped - for the boundary family followed by #n=<entries>, for the zero-width family followed by the position and by whether the count exceeds the bytes after the container -, entry point, outcome); distinct_nontrivial counts the distinct classes executed"
+			"plus the length-sweep family (families length-sweep/<entry point>): the variable-length leaves s (string of n bytes), m-signature (dynamic value whose signature string has n >= 1 bytes), m-raw (dynamic value carrying a raw buffer of n bytes; reflection encoder and decoder only) and list ([C] of n <= 4096 elements) " +
+			"x every length 0..300 (s, m-signature and m-raw taken alone: every length 0..4200) and, around every power of two from 512 to 64 KiB (thorough: 1 MiB), 2^k-1, 2^k, 2^k+1 and 2^k+2^(k-1), plus 70000 (coverage.length_sweep lists them) " +
+			"x the positions alone, tuple-last (ix), tuple-non-last (xi), list-elem-followed [x,y], in-value m<x> and value-in-list-followed [m<x>,m<i>] (the last two not for m-signature and m-raw) - the full product, no subset - " +
+			"with position-dependent content without period, through the 3 entry points (decoding ones under 6 deliveries: the 3 above, sentinel follows/4093-byte reads, data+EOF, *bytes.Buffer holding the encoding and a sentinel) and, for s alone, basic.WriteString and basic.ReadString (thorough: s alone at every length 0..70000 through the 5 entry points under the first delivery); " +
+			"a failure is attributed to the smallest failing length (bisection between enumerated lengths); " +
+			"evaluations counts (datum, entry point, delivery) executions. A case class is (signature shape with struct names dropped - for the boundary family followed by #n=<entries>, for the zero-width family followed by the position and by whether the count exceeds the bytes after the container; for the length-sweep family: leaf, position, length class 0..300 | power-of-two neighbourhood -, entry point, outcome); distinct_nontrivial counts the distinct classes executed"
 		mu.Lock()
 		mm := append([]string(nil), mismatches...)
 		mu.Unlock()
@@ -339,6 +368,7 @@ func main() {
 			"depth": depth, "signatures": len(sigs), "values": nvals,
 			"boundary":                  map[string]interface{}{"documented_cap": sizeCap, "entries": boundaryCounts, "data_executed": nboundary, "data": boundaryData},
 			"zero_width":                zeroWidth,
+			"length_sweep":              lengthSweep,
 			"go_type_vs_signature_Type": map[string]interface{}{"compared_m_and_o_free_signatures": typeChecked, "different": typeMismatch, "first": mm},
 		}
 		assumptions := []string{
@@ -348,7 +378,8 @@ func main() {
 			"zero-width types (void, the empty tuple, a structure without member, tuples and structures of those) serialize to no byte, so a list of n of them is its 32-bit count alone; a map keyed by a zero-width type has at most one entry (the key type has a single value), wire counts above 1 for such maps are not judged; counts of zero-width elements stay <= 8 (and 4095/4096 in the boundary family): what the codecs do with huge counts over elements that consume no input belongs to C07",
 			"decoders are given three reader types/extents: the fragmenting reader with a sentinel after the encoding, the fragmenting reader with a separate EOF, and a *bytes.Buffer holding exactly the encoding (bytes.NewBuffer(payload), what generated code passes); other reader types (*bytes.Reader, bufio.Reader) are not enumerated",
 			"4096 entries (listValueMaxSize of type/encoding and type/value) is the largest list or map the codecs are documented to handle: 4095 and 4096 entries must be handled by the three entry points alike; larger counts are refused on purpose by the repository and are not judged",
-			"dynamic values carry every scalar kind, strings, void, [i], [s], (is), {sI}; 'r' (raw) is not enumerated: the repository's signature grammar has no 'r' atom",
+			"dynamic values carry every scalar kind, strings, void, [i], [s], (is), {sI}; 'r' (raw) is not enumerated by Sig x Val: the repository's signature grammar has no 'r' atom (the length-sweep family passes a raw buffer carried by a value.Value through the reflection encoder and decoder, layout: 32-bit count then the bytes)",
+			"length-sweep: thresholds on the length of a leaf are looked for at every length up to 300 (4200 for a string or a signature alone) and next to the powers of two up to 64 KiB (thorough 1 MiB); a defect that only shows for lengths in a narrow band elsewhere (say 1000..1003) is not reached; lengths above 1 MiB + 1 (the codecs accept strings up to 10 MiB) are not enumerated",
 			"a codec call that does not return within the hang limit (5 executions) is reported as a violation with the clause 'hang' and ends the enumeration",
 		}
 		return run.Finish(rule, true, extra, assumptions)
@@ -369,6 +400,7 @@ func main() {
 	// the boundary family first: a handful of data, never cut by the deadline
 	nboundary, boundaryData = familyBoundary()
 	zeroWidth = familyZeroWidth()
+	lengthSweep = familyLengthSweep(run.Thorough())
 
 	guards := make(chan *enum.Guard, run.Workers+1)
 	for i := 0; i <= run.Workers; i++ {
